@@ -73,6 +73,13 @@ def run_job(job):
     if job.get("unwind"):
         cmd3 += ["--unwind", str(job["unwind"]), "--unwinding-assertions"]
         res["bounded"] = "unwind %s" % job["unwind"]
+    if "--unwind" in cmd3:
+        # the loops goto-instrument leaves in its contracts library iterate over the assigns/frees targets of the contracts
+        # involved; a small --unwind chosen for the program's own loops must not cut them (that would make the end of the
+        # harness unreachable -- caught by the canary, but then nothing is decided)
+        cmd3 += ["--unwindset", ",".join("%s:24" % l for l in (
+            "__CPROVER_contracts_write_set_deallocate_freeable.0", "__CPROVER_contracts_write_set_deallocate_freeable.1", "__CPROVER_contracts_write_set_deallocate_freeable.2",
+            "__CPROVER_contracts_write_set_check_frees_clause_inclusion.0", "__CPROVER_contracts_write_set_check_assigns_clause_inclusion.0"))]
     if spec.solver:
         cmd3 += [spec.solver] if isinstance(spec.solver, str) else list(spec.solver)
     cmd3 += ["--object-bits", str(spec.objbits or 10), "--no-malloc-may-fail"]
